@@ -406,7 +406,8 @@ Init ==
   /\ source = [x \in Streams |-> None]
   /\ path   = <<>>
 
-Act(op, a) == /\ Pre(S, op, a) /\ SetS(Post(S, op, a))
+Act(op, a) == /\ (Pre(S, op, a) = TRUE)      \* "= TRUE": evaluate as a value, not as an action (no branching on \/)
+              /\ SetS(Post(S, op, a))
               /\ path' = Append(path, [op |-> op, a |-> a])
 
 XsSet == UNION {[1..n -> Streams \cup {M}] : n \in 0..MaxXs}
